@@ -73,6 +73,8 @@ CheckTarget(e, unweighted) ==
      ELSE IF e.status = "INFEASIBLE" THEN
           (IF e.has_path THEN "Infeasible.with_path"
            ELSE IF best < INF /\ ~(cut /\ best > e.max_cost) THEN "Infeasible.but_target_reachable" ELSE "")
+     \* a cost limit means: targets farther than max_cost are not found (INFEASIBLE); it never licenses a wrong distance
+     ELSE IF cut /\ e.exact /\ e.obj > e.max_cost THEN "Distance.beyond_max_cost_reported"
      ELSE IF e.status \notin {"OPTIMAL", "FEASIBLE"} THEN "Return.unexpected_status"
      ELSE IF ~e.has_path \/ Len(e.path) = 0 THEN "Path.missing"
      ELSE IF e.path[1] # e.src THEN "Path.does_not_start_at_source"
@@ -82,7 +84,6 @@ CheckTarget(e, unweighted) ==
      ELSE IF e.solver \in {"dfs", "dfs_edges"} THEN (IF e.obj # Len(e.path) - 1 THEN "Path.objective_is_not_its_length" ELSE "")
      ELSE IF ~e.exact THEN "Distance.not_representable"
      ELSE IF ~PathWeightOK(EE, e.path, e.obj) THEN "Path.weights_do_not_sum_to_objective"
-     ELSE IF cut /\ e.obj > e.max_cost THEN ""                     \* above the cut-off: only a genuine path is required
      ELSE IF e.obj # best THEN "Distance.not_shortest"
      ELSE ""
 
